@@ -8,7 +8,8 @@ frames := `<nf> {<fidx> <vidx> <eff> <np> {<id> <val>}ⁿᵖ}ⁿᶠ`
 `gen <B> <mi|-> frames`    → same format                      (`predictGen B (centroidCrop mi)`)
 `bu  frames`               → `ok <nf> {<fidx> <vidx> <eff> <n> <id>ⁿ}ⁿᶠ`   (`bottomupRecords`, group = ids, decode = pair)
 `keeptop <mi|-> <np> {<id> <val>}` → `ok <id>…`                        (`keepTop`)
-`mode <single|topdown|bottomup> <cur:eval|train>` → `ok <mode under the repaired wrapper> <mode as coded>`
+`mode <single|topdown|bottomup> <cur:eval|train>` → `ok <mode at HEAD (forced eval)> <mode before dc60a97>`
+`gtparse <maxInst> <nf> {<n> <id>ⁿ}` → `ok {<maxInst tokens: id | ->}ⁿᶠ`        (`gtPeaks`)
 `chunks <B> <n>`           → `ok <size>…`
 `topk <k> <np> {<id> <val>}` → `ok <id>…`
 -/
@@ -59,8 +60,14 @@ def handle (line : String) : String :=
     let cur? : Option Mode := match c with | "eval" => some .eval | "train" => some .train | _ => none
     let str : Mode → String := fun m => match m with | .eval => "eval" | .train => "train"
     match kind?, cur? with
-    | some kind, some cur => s!"ok {str (modeOf (forcesEvalFixed kind) cur)} {str (modeOf (forcesEvalAsIs kind) cur)}"
+    | some kind, some cur => s!"ok {str (modeOf (forcesEval kind) cur)} {str (modeOf (forcesEvalAsIs kind) cur)}"
     | _, _ => "bad-op"
+  | "gtparse" :: rest =>
+    match runP (do let k ← nat; let ms ← listOf (listOf nat); pure (k, ms)) rest with
+    | some (k, ms) =>
+      "ok" ++ String.join ((gtPeaks k ms).map fun row => String.join (row.map fun o =>
+        match o with | some i => s!" {i}" | none => " -"))
+    | none => "bad-op"
   | "chunks" :: rest =>
     match runP (do let b ← nat; let n ← nat; pure (b, n)) rest with
     | some (b, n) => "ok " ++ natsStr ((chunks b (List.range n)).map (·.length))
